@@ -582,7 +582,7 @@ def _work(job):
     world.quiet()
     try:
         # a source change that makes retried invocations hang would otherwise cost the full limit per case
-        limit = 20.0 if (_HANGS is None or _HANGS.value < 4) else 1.5
+        limit = 45.0 if (_HANGS is None or _HANGS.value < 4) else 1.5
         obs = run_impl(mode, case, scratch, slots, tag=str(idx), timeout=limit)
         if _HANGS is not None and (obs["out"] == ["hang"] or obs.get("unfinished")):
             with _HANGS.get_lock():
@@ -971,13 +971,16 @@ def main(ctx: Ctx) -> int:
                     stats["stale_counter_reads"][mode] += stale
                 fresh = [f for f in found if f[0] not in ctx._known and f[0] not in confirmed]
                 if fresh and reruns[0] < 24:
-                    # a verdict must reproduce: re-run the same case (fresh app, this process) twice; a genuine
-                    # violation of the property by the source is deterministic for these pure programs
-                    again = set()
+                    # a verdict must reproduce: re-run the same case (fresh app, this process, nothing else running,
+                    # generous time limit - the machine may be loaded) twice; a genuine violation of the property by
+                    # the source is deterministic for these pure programs, so it shows in BOTH re-runs
+                    again = {f[0] for f in fresh}
                     for r in range(2):
                         reruns[0] += 1
-                        d2 = run_impl(mode, c, scratch, slots, tag=f"{j}_re{r}", timeout=8.0)
-                        again |= {f[0] for f in dist_verdicts(c, m, s_obs, d2)[0]}
+                        d2 = run_impl(mode, c, scratch, slots, tag=f"{j}_re{r}", timeout=40.0)
+                        again &= {f[0] for f in dist_verdicts(c, m, s_obs, d2)[0]}
+                        if not again:
+                            break
                     for f in fresh:
                         if f[0] in again:
                             confirmed.add(f[0])
@@ -1039,8 +1042,8 @@ def main(ctx: Ctx) -> int:
         "parallel_batch_size 0..3 or absent; a task declares max_retries itself (also 0) or leaves it to the app level; "
         "keyword arguments extra (per call) and shift (common_args) are added to the body's value, declared in the spec",
         "distributed runs use the real ThreadRunner in a thread, 2 ms loop sleeps, GIL switch interval 0.5 ms; verdicts use "
-        "outcome, per-node execution counts and final num_retries only; a verdict of a distributed run must reproduce on a "
-        "re-run of the same case (unreproduced ones are listed under transient_unreproduced)",
+        "outcome, per-node execution counts and final num_retries only; a verdict of a distributed run must reproduce on "
+        "two re-runs of the same case, each with a 40 s limit (unreproduced ones are listed under transient_unreproduced)",
         "the app's lazily created components are instantiated in the main thread before the runner and client threads start "
         "(their unlocked check-then-create can otherwise build two in-memory orchestrators / data stores)",
     ]
